@@ -340,13 +340,19 @@ pub struct World {
     pub disc: Disc,
     pub model: Vec<ModelCred>,
     pub verification_enabled: Option<bool>,
+    /// the authenticator is re-configured through its public setters between ceremonies
+    /// (signature counters for new credentials on/off, credential-id length)
+    pub reconfigure: bool,
 }
 
 impl World {
     pub fn new(cfg: AuthCfg, disc: Disc, verification_enabled: Option<bool>) -> World {
         let rig = Rig::new(disc, UvOutcome::Check { presence: true, verification: true }, verification_enabled);
         let client = rig.client(cfg);
-        World { rig, client, cfg, disc, model: Vec::new(), verification_enabled }
+        // about a third of the generated configurations (a function of the configuration, so that
+        // replays agree)
+        let reconfigure = matches!(cfg.id_len, Some(n) if n % 3 == 0) || (cfg.id_len.is_none() && cfg.counters && cfg.hmac_mc);
+        World { rig, client, cfg, disc, model: Vec::new(), verification_enabled, reconfigure }
     }
 
     fn resolve(&self, r: &IdRef) -> Vec<u8> {
@@ -439,6 +445,20 @@ impl World {
 
     pub fn step(&mut self, index: usize, op: &Op, monitor: &mut dyn FnMut(&Step)) {
         let op = &self.concretise(op);
+        if self.reconfigure && index > 0 {
+            match index % 3 {
+                1 => {
+                    self.cfg.counters = !self.cfg.counters;
+                    self.client.authenticator_mut().set_make_credentials_with_signature_counter(self.cfg.counters);
+                }
+                2 => {
+                    let l = [16u8, 64, 0, 33, 255, 17][(index / 3) % 6];
+                    self.cfg.id_len = Some(l);
+                    self.client.authenticator_mut().set_make_credential_id_length(passkey_authenticator::CredentialIdLength::from(l));
+                }
+                _ => {}
+            }
+        }
         let before = self.rig.store.snapshot();
         self.rig.log.clear();
         self.rig.store.reset_call_counts();
